@@ -4,6 +4,7 @@ import (
 	"fmt"
 	"go/constant"
 	"go/token"
+	"go/types"
 
 	"golang.org/x/tools/go/ssa"
 
@@ -24,6 +25,11 @@ import (
 type od2Env struct {
 	params map[*ssa.Parameter]int64
 	comp   func(a, b int64) bool // oracle for calls of a func-typed parameter
+	// inModule, when set, lets the body call other functions of the module that are
+	// themselves of the accepted form (InRange written on top of Clamp): they are
+	// interpreted in turn, to a small depth
+	inModule func(*ssa.Function) bool
+	depth    int
 }
 
 type od2Val struct {
@@ -119,6 +125,30 @@ func od2Eval(fn *ssa.Function, env od2Env) (res od2Val, ok bool, why string) {
 				}
 			case *ssa.Call:
 				prm, isP := x.Call.Value.(*ssa.Parameter)
+				if callee := path.StaticCallee(x); !isP && callee != nil && env.inModule != nil && env.inModule(callee) && env.depth < 3 && len(callee.Params) == len(x.Call.Args) && len(callee.Blocks) > 0 {
+					sub := od2Env{params: map[*ssa.Parameter]int64{}, comp: env.comp, inModule: env.inModule, depth: env.depth + 1}
+					okArgs := true
+					for i, a := range x.Call.Args {
+						v, ok := get(a)
+						if !ok || v.isBool {
+							if _, isFn := a.Type().Underlying().(*types.Signature); isFn {
+								continue // the comparator handed on
+							}
+							okArgs = false
+							break
+						}
+						sub.params[callee.Params[i]] = v.n
+					}
+					if !okArgs {
+						return od2Val{}, false, "argument of " + callee.Name() + " outside the accepted form"
+					}
+					res, ok, why := od2Eval(callee, sub)
+					if !ok {
+						return od2Val{}, false, callee.Name() + ": " + why
+					}
+					vals[x] = res
+					continue
+				}
 				if !isP || env.comp == nil || len(x.Call.Args) != 2 {
 					return od2Val{}, false, "call outside the accepted form"
 				}
@@ -205,7 +235,7 @@ func od2Check(c rc, spec od2Spec) {
 				return
 			}
 			for oi, o := range oracles {
-				env := od2Env{params: map[*ssa.Parameter]int64{}, comp: o}
+				env := od2Env{params: map[*ssa.Parameter]int64{}, comp: o, inModule: c.p.InModule}
 				for k := 0; k < spec.nNum; k++ {
 					env.params[fn.Params[k]] = args[k]
 				}
